@@ -16,7 +16,7 @@ requires_grad; train/eval set exactly the reachable modules; freeze/unfreeze/zer
 on exactly the reachable parameters; re-assigning a name replaces what it contributes;
 Sequential calls submodules in registration order.
 
-Not asserted: own-before-children order, the slot a RE-assigned name takes, zero_grad on
+Not asserted: own-before-children order, the slot a name takes when it is re-assigned to ANOTHER kind, zero_grad on
 frozen parameters, empty Sequential.
 """
 from collections import OrderedDict
@@ -26,7 +26,7 @@ import numpy as np
 from simkit.core import RunState, Sim, small_values, enc, dec
 from simkit.world import World, SEAM, SimFault, quiet
 
-NAMES = ["a", "b", "c", "fc", "w", "head"]
+NAMES = ["a", "b", "c", "fc", "w", "head", "_body", "_", "__x", "Layer0", "x1"]       # (names with leading underscores are ordinary attribute names)
 
 
 class Slot:
@@ -139,7 +139,7 @@ class ModSim(Sim):
         kn = st.knobs
         n_real = len([m for m in st.M if m < 1000])
         if n_real < 2 or (n_real < kn["n_mods"] and rng.random() < 0.25):
-            kinds = ["box", "box", "box", "linear", "linear_nobias", "bn", "bn_noaffine", "relu"]
+            kinds = ["box", "box", "box", "linear", "linear_nobias", "bn", "bn_noaffine", "bn_notrack", "bn2d_notrack_noaffine", "dropout", "relu"]
             if kn["seq"]:
                 kinds += ["seq_pos", "seq_dict"]
             kind = rng.choice(kinds)
@@ -271,11 +271,15 @@ class ModSim(Sim):
             slots["weight"] = Slot("param", m.weight)
             if kind == "linear":
                 slots["bias"] = Slot("param", m.bias)
-        elif kind in ("bn", "bn_noaffine"):
-            m = SG.nn.BatchNorm1d(3, affine=(kind == "bn"))
-            if kind == "bn":
+        elif kind in ("bn", "bn_noaffine", "bn_notrack", "bn2d_notrack_noaffine"):
+            cls = SG.nn.BatchNorm2d if kind.startswith("bn2d") else SG.nn.BatchNorm1d
+            affine = kind in ("bn", "bn_notrack")
+            m = cls(3, affine=affine, track_running_stats=kind in ("bn", "bn_noaffine"), momentum=None if kind == "bn_noaffine" else 0.1)
+            if affine:
                 slots["weight"] = Slot("param", m.weight)
                 slots["bias"] = Slot("param", m.bias)
+        elif kind == "dropout":
+            m = SG.nn.Dropout(0.5)
         elif kind == "relu":
             m = SG.nn.ReLU()
         else:
@@ -330,8 +334,10 @@ class ModSim(Sim):
                     del slots[name]          # leaves the other registry; joins this one at the end
                     slots[name] = Slot(kind, obj, True)
                 else:
+                    # "replacing an attribute replaces its registration": the new object takes the PLACE of the old one
+                    # (replacing layer '0' of a Sequential must not move it behind the others)
                     st.probes["reassign_same_kind"] += 1
-                    slots[name] = Slot(kind, obj, True)
+                    slots[name] = Slot(kind, obj, old.reassigned)
                 st.nontrivial = True
             else:
                 slots[name] = Slot(kind, obj)
